@@ -99,6 +99,11 @@ CLAIMED = {
     level="For a symbolic unit attitude, symbolic references and positive scales, the matrices these estimators hand to their eigen-solvers / iterations have the true attitude as the relevant eigenvector identically, and the closed forms (QUEST at its root, SAAM, TRIAD) return it identically; this is exact on the whole of SO(3) in general position. Convergence of the Newton / power iterations, FAMC, FQA, Tilt, AQUA's branch selection and the singular poses are not decided.",
     note="Direction (q or q*) is whichever the code satisfies exactly and is recorded in the evidence; unit symbols with declared relations.",
     ref="DESIGN.md §2 C04"),
+ "C05": dict(
+    technique="AVN equilibrium identities (correction terms vanish identically at the truth for consistent data) and feedback-sign identities (Madgwick's J is the formal Jacobian of its objective and the step is a descent step; Mahony's Lyapunov derivative equals -k_P |a x v_a|^2; EKF's measurement Jacobian and Kalman-update structure), OLEQ/ROLEQ fixed direction and twin",
+    level="Convergence, its rate, the final tolerance and monotonicity are trajectory properties and are NOT decided. Decided exactly are two necessary conditions visible in the code: the truth is an equilibrium of every corrector, and each closed-form correction has the descent sign/structure (a flipped sign in a Jacobian entry, a swapped cross product or an ascent step is refuted with a witness).",
+    note="UKF and AQUA are covered only through the shared equilibrium/twin rules of other properties; FKF through its affine update.",
+    ref="DESIGN.md §2 C05"),
 }
 
 NOT_YET = "check not built yet in this session (work in progress; see DESIGN.md §2 for the planned static rules)"
